@@ -221,9 +221,9 @@ def c19_check():
         b = os.path.basename(path.rstrip("/"))
         if os.path.isdir(path):
             return [["valgrind", "-q", "--error-exitcode=9", "--leak-check=full", "--errors-for-leak-kinds=definite,indirect", "--track-origins=yes", os.path.join(BIN, "hist.exc"), "--replay-many", path]]
-        if b.startswith(("crash-", "leak-", "oom-")) or "__crash-" in b or "__leak-" in b:
+        if b.startswith(("crash-", "leak-", "oom-")) or "@crash-" in b or "@leak-" in b:
             return [[os.path.join(BIN, "fuzz_hist.asanexc"), "-detect_leaks=1", path]]
-        if b.startswith("fail_leak") or "__fail_leak" in b:
+        if b.startswith("fail_leak") or "@fail_leak" in b:
             return [[os.path.join(BIN, "leak.exc"), "--replay", path]]
         return [[os.path.join(BIN, "hist.asanexc"), "--replay", path]]
     return dict(id="C19", variants=["asanexc", "exc"], bins=["fuzz_hist.asanexc", "hist.asanexc", "hist.exc", "leak.exc"], workers=workers, collect=collect, replay_argv=replay, rule=rule,
